@@ -71,7 +71,7 @@ RULE = (
 BOUNDS = {
   "quick": "nv=12, T=3, nvmax 0..12 all, 8 subsets for world 0 with world 1 = bijective image (3s+5 mod 8), 2 worlds, 1 state alphabet per seed; "
   "free scenes: nv=14, T=3, 4+16 call sequences, 4 poison bytes, 8 subsets (length-1 sequences), default nvmax, 1 state alphabet; "
-  "capacity histories: nv=18, T=3, nvmax in {6, 12, 15 (padded 16 < nv), 18 (padded 32)}, all 64 subset sequences of length 2 (world 1 = bijective image), "
+  "capacity histories: nv=18, T=3, nvmax in {6, 15 (padded 16 < nv), 18 (padded 32)}, all 64 subset sequences of length 2 (world 1 = bijective image), "
   "entry forward, 1 state alphabet",
   "thorough": "same plus all 64 (world 0, world 1) subset pairs and a second state alphabet (also for the free scenes and the histories); "
   "capacity histories: nvmax in {0, 6, 11, 12, 15, 16, 18}, all 512 sequences of length 3 through forward and all 64 of length 2 through the api entry",
@@ -173,7 +173,7 @@ BIG_XML = (
 BIG = "apart3"
 DECOUPLED = ("apart", BIG)  # scenes whose inertia and constraints are block diagonal over trees
 # capacities: 6 / 12 / 18 fit exactly one / two / three trees, 15 fits two with slack; padded width 16 < nv for every nvmax <= 15, 32 above
-HIST_NVMAX = {"quick": (6, 12, 15, 18), "thorough": (0, 6, 11, 12, 15, 16, 18)}
+HIST_NVMAX = {"quick": (6, 15, 18), "thorough": (0, 6, 11, 12, 15, 16, 18)}
 HIST_ENTRIES = {"quick": (("forward", 2),), "thorough": (("forward", 3), ("api", 2))}  # (entry, calls per history)
 
 
